@@ -39,6 +39,15 @@ class MNodeView(Model):
     def items(self):
         return [(n, self._attrs[n]) for n in self]
 
+    def keys(self):
+        return list(self)
+
+    def values(self):
+        return [self._attrs[n] for n in self]
+
+    def get(self, n, default=None):
+        return self._attrs[n] if n in self._attrs else default
+
 
 class MGraph(Model):
     def __init__(self, circuit):
@@ -221,7 +230,9 @@ class MCircuit(Model):
 from .typetables import NO_FANIN, NO_FANOUT, SINGLE_FANIN  # noqa: E402
 
 
-class MMutGraph(Model):
+class MMutGraph(MGraph):
+    """MGraph's read interface (degrees, views, adjacency) plus the writers, which log what they do."""
+
     def __init__(self, circuit):
         self._c = circuit
         self.nodes = MNodeView(circuit._attrs)
